@@ -2,6 +2,8 @@ import MesaModel.Model.Viz
 /-!
 Helper lemmas for the Viz model (property theorems: `Props/C20.lean`).
 -/
+deriving instance DecidableEq for Except
+
 namespace Mesa.Viz
 
 /-! ## lists -/
